@@ -547,8 +547,16 @@ fn enumerate_faults(base: &v1::Instance) -> Vec<Fault> {
             for p in 0..id_positions(f) {
                 let what = *what;
                 out.push((format!("undefined-id:{what}@{fi}.{p}"), Box::new(move |m| {
+                    // at every other position, when the instance records the parameters it was instantiated with, the
+                    // undefined id is the id of such a recorded parameter (recorded, not defined as a variable)
+                    let mut id = UNDEF + p as u64;
+                    if (p + fi) % 2 == 1 {
+                        if let Some(k) = m.parameters.as_ref().and_then(|ps| ps.entries.keys().copied().filter(|k| m.decision_variables.iter().all(|v| v.id != *k)).min()) {
+                            id = k;
+                        }
+                    }
                     let mut fns = each_function_mut(m);
-                    set_id_at(fns[fi].1, p, UNDEF + p as u64);
+                    set_id_at(fns[fi].1, p, id);
                 })));
             }
         }
